@@ -977,7 +977,20 @@ func execC11(raw json.RawMessage, wantLog bool) (out Outcome) {
 		return
 	}
 	if !faulty && !overlap {
-		// fault-free (incl. paused proposers): exact outcomes, exact batch error maps
+		// fault-free (incl. paused proposers): exact outcomes, exact batch error maps.
+		// The comparison with a sequential map needs callers that do not overlap: two
+		// overlapping callers reach Propose in either order. (The generator left the
+		// overlap flags on in one corner - owner-removal mode drawn for a one-node
+		// cluster - and the exact oracle then took a legal reordering for a lost item.)
+		anyAsync := false
+		for i := range c.Ops {
+			if c.Ops[i].Async {
+				c.Ops[i].Async, anyAsync = false, true
+			}
+		}
+		if anyAsync {
+			raw, _ = json.Marshal(c)
+		}
 		out = execRouting("C11", raw, wantLog)
 		out.Stat("fault_free_exact_outcome_runs", 1)
 		return
